@@ -508,8 +508,27 @@ fn feed(d: &[u8]) {
         FEED_POS += d.len();
     }
 }
-pub fn rec_http(d: &[u8], _m: &Masscanned, _c: &ClientInfo, _t: Option<&mut TCPControlBlock>) -> Option<Vec<u8>> { feed(d); None }
-pub fn rec_rpc_tcp(d: &[u8], _m: &Masscanned, _c: &ClientInfo, _t: Option<&mut TCPControlBlock>) -> Option<Vec<u8>> { feed(d); None }
+pub static mut FEED_STATE_OK: bool = true;
+/// the responders start with `match t.proto_state { None => .., Some(<own>) => .., _ => panic!() }`:
+/// the dispatcher must hand them a control block whose protocol state is empty or their own
+pub fn rec_http(d: &[u8], _m: &Masscanned, _c: &ClientInfo, t: Option<&mut TCPControlBlock>) -> Option<Vec<u8>> {
+    feed(d);
+    if let Some(t) = t {
+        if !matches!(t.proto_state, None | Some(ProtocolState::HTTP(_))) {
+            unsafe { FEED_STATE_OK = false; }
+        }
+    }
+    None
+}
+pub fn rec_rpc_tcp(d: &[u8], _m: &Masscanned, _c: &ClientInfo, t: Option<&mut TCPControlBlock>) -> Option<Vec<u8>> {
+    feed(d);
+    if let Some(t) = t {
+        if !matches!(t.proto_state, None | Some(ProtocolState::RPC(_))) {
+            unsafe { FEED_STATE_OK = false; }
+        }
+    }
+    None
+}
 
 /// stream s[..n] on a fresh flow, cut in two at every position in lo..hi
 fn feed_case(s: &[u8; 48], n: usize, lo: usize, hi: usize, want: usize) {
@@ -522,11 +541,13 @@ fn feed_case(s: &[u8; 48], n: usize, lo: usize, hi: usize, want: usize) {
             FEED_EXPECT = *s;
             FEED_POS = 0;
             FEED_OK = true;
+            FEED_STATE_OK = true;
         }
         let mut tcb = TCPControlBlock { smack_state: BASE_STATE, proto_id: PROTO_NONE, proto_state: None };
         let _ = repl(&s[..cut], &masscanned, &mut ci, Some(&mut tcb));
         let _ = repl(&s[cut..n], &masscanned, &mut ci, Some(&mut tcb));
         assert!(tcb.proto_id == want, "C10: TCP identification depends on how the leading bytes are split into segments");
+        assert!(unsafe { FEED_STATE_OK }, "C01: the responder is handed a control block holding a protocol state that is not its own (its panic!() arm is reachable)");
         assert!(unsafe { FEED_OK && FEED_POS == n }, "C11: cut inside the protocol signature: the flow's responder is not handed the stream from its first byte, so the request is parsed differently from the unsegmented stream");
         std::mem::forget(tcb);
         cut += 1;
@@ -556,7 +577,7 @@ fn rpc_stream() -> ([u8; 48], usize) {
 }
 
 //# harness: c11_dispatch_feed_http_sig
-//# props: C11
+//# props: C11 C01
 //# tier: quick
 //# encodes: proto::repl (dispatcher in TCP mode with a control block: identification state kept across segments, sticky protocol, which bytes the responder is handed)
 //# encodes: smack::Smack::search_next on the real PROTO tables
@@ -581,7 +602,7 @@ fn c11_dispatch_feed_http_sig() {
 }
 
 //# harness: c11_dispatch_feed_http_after
-//# props: C11
+//# props: C11 C01
 //# tier: quick
 //# encodes: proto::repl (dispatcher in TCP mode with a control block: identification state kept across segments, sticky protocol, which bytes the responder is handed)
 //# encodes: smack::Smack::search_next on the real PROTO tables
@@ -606,7 +627,7 @@ fn c11_dispatch_feed_http_after() {
 }
 
 //# harness: c11_dispatch_feed_rpc_cut4
-//# props: C11
+//# props: C11 C01
 //# tier: thorough
 //# timeout: 1200
 //# encodes: proto::repl (dispatcher in TCP mode with a control block: identification state kept across segments, sticky protocol, which bytes the responder is handed)
@@ -632,7 +653,7 @@ fn c11_dispatch_feed_rpc_cut4() {
 }
 
 //# harness: c11_dispatch_feed_rpc_cut27
-//# props: C11
+//# props: C11 C01
 //# tier: thorough
 //# timeout: 1200
 //# encodes: proto::repl (dispatcher in TCP mode with a control block: identification state kept across segments, sticky protocol, which bytes the responder is handed)
@@ -658,7 +679,7 @@ fn c11_dispatch_feed_rpc_cut27() {
 }
 
 //# harness: c11_dispatch_feed_rpc_cut28
-//# props: C11
+//# props: C11 C01
 //# tier: thorough
 //# timeout: 1200
 //# encodes: proto::repl (dispatcher in TCP mode with a control block: identification state kept across segments, sticky protocol, which bytes the responder is handed)
@@ -684,7 +705,7 @@ fn c11_dispatch_feed_rpc_cut28() {
 }
 
 //# harness: c11_dispatch_feed_rpc_cut43
-//# props: C11
+//# props: C11 C01
 //# tier: thorough
 //# timeout: 1200
 //# encodes: proto::repl (dispatcher in TCP mode with a control block: identification state kept across segments, sticky protocol, which bytes the responder is handed)
@@ -707,4 +728,41 @@ fn c11_dispatch_feed_rpc_cut28() {
 fn c11_dispatch_feed_rpc_cut43() {
     let (s, n) = rpc_stream();
     feed_case(&s, n, 43, 44, PROTO_RPC_TCP)
+}
+
+
+//# harness: c10_dispatch_stream_no_end_20
+//# props: C10 C11
+//# tier: quick
+//# encodes: proto::repl (dispatcher in TCP mode), smack::Smack::search_next on the real PROTO tables
+//# bounds: first segment of a fresh TCP flow = 20 bytes 00 01 00 00 + 16 bytes (bytes 4..7 arbitrary but not the STUN magic, last byte arbitrary, the others 0x11): the END-anchored cookie-less STUN shape, which only counts for a datagram of exactly that length
+//# stubs: the eight responders -> tag-returning functions; proto_init -> constructor over the natively dumped real tables
+//# out: the 28-byte END-anchored shape (same mechanism)
+//# cover: not dispatched
+#[kani::proof]
+#[kani::unwind(34)]
+#[kani::stub(crate::proto::proto_init, crate::proto::verif_proto_init_stub)]
+#[kani::stub(crate::proto::http::repl, tag_http)]
+#[kani::stub(crate::proto::stun::repl, tag_stun)]
+#[kani::stub(crate::proto::ssh::repl, tag_ssh)]
+#[kani::stub(crate::proto::ghost::repl, tag_ghost)]
+#[kani::stub(crate::proto::rpc::repl_tcp, tag_rpc_tcp)]
+#[kani::stub(crate::proto::rpc::repl_udp, tag_rpc_udp)]
+#[kani::stub(crate::proto::smb::repl_smb1, tag_smb1)]
+#[kani::stub(crate::proto::smb::repl_smb2, tag_smb2)]
+fn c10_dispatch_stream_no_end_20() {
+    lazy_static::initialize(&PROTO_SMACK);
+    let mut d = [0x11u8; 20];
+    d[0] = 0; d[1] = 1; d[2] = 0; d[3] = 0;
+    let m: [u8; 4] = kani::any();
+    kani::assume(!(m[0] == 0x21 && m[1] == 0x12 && m[2] == 0xa4 && m[3] == 0x42));
+    d[4] = m[0]; d[5] = m[1]; d[6] = m[2]; d[7] = m[3];
+    d[19] = kani::any();
+    let masscanned = ms_plain([0, 0], MacAddr::new(0, 1, 2, 3, 4, 5));
+    let mut tcb = TCPControlBlock { smack_state: BASE_STATE, proto_id: PROTO_NONE, proto_state: None };
+    let mut ci = ci_any(false, true);
+    let r1 = repl(&d, &masscanned, &mut ci, Some(&mut tcb));
+    assert!(r1.is_none() && tcb.proto_id == PROTO_NONE, "C10: end-of-input signature applied to a TCP segment boundary (the decision depends on how the stream is cut)");
+    kani::cover!(true, "not dispatched");
+    std::mem::forget(tcb);
 }
